@@ -47,6 +47,8 @@ type Obligation struct {
 	Secs   float64
 	Model  string
 	SMTLen int
+	Candidate bool
+	Ground string
 }
 
 // FV verifies one function.
